@@ -169,7 +169,7 @@ pub fn run(tier: &str, seed: u64) -> i32 {
     let mut restarts = 0u64;
     let mut mutating: BTreeSet<String> = BTreeSet::new();
     let mut samples: Vec<Value> = Vec::new();
-    let forms = ["call", "notification", "batch-first", "batch-middle", "batch-last", "batch-only-this"];
+    let forms = ["call", "notification", "batch-first", "batch-middle", "batch-last", "batch-only-this", "batch-after-malformed", "batch-among-malformed", "batch-before-malformed"];
     let is_unauth = |v: &Value| v.get("error").map(|e| e["code"] == json!(401) && e["message"].as_str().map(|m| m.contains("Unauthorized")).unwrap_or(false)).unwrap_or(false);
     for r in &reqs {
         let prot = protected.contains(&r.method);
@@ -182,6 +182,11 @@ pub fn run(tier: &str, seed: u64) -> i32 {
                     "batch-first" => format!("[{},{},{}]", body_call(r, 1), body_call(&read, 2), body_call(&read, 3)),
                     "batch-middle" => format!("[{},{},{}]", body_call(&read, 1), body_call(r, 2), body_call(&read, 3)),
                     "batch-last" => format!("[{},{},{}]", body_call(&read, 1), body_notif(&read), body_call(r, 3)),
+                    // elements that are not requests at all stay in the batch as error entries: they must not
+                    // shift which element is refused
+                    "batch-after-malformed" => format!("[1,{}]", body_call(r, 2)),
+                    "batch-among-malformed" => format!("[{{\"foo\":1}},{},\"x\",{},null]", body_call(&read, 1), body_call(r, 2)),
+                    "batch-before-malformed" => format!("[{},1,{}]", body_call(r, 3), body_call(&read, 1)),
                     _ => format!("[{},{}]", body_call(r, 1), body_notif(r)),
                 };
                 let resp = http(&srv.s.addr, header.as_deref(), &body);
@@ -201,7 +206,8 @@ pub fn run(tier: &str, seed: u64) -> i32 {
                     "notification" => vec![],
                     "batch-first" => parsed.as_array().map(|a| a.iter().filter(|x| x["id"] == json!(1)).cloned().collect()).unwrap_or_default(),
                     "batch-middle" => parsed.as_array().map(|a| a.iter().filter(|x| x["id"] == json!(2)).cloned().collect()).unwrap_or_default(),
-                    "batch-last" => parsed.as_array().map(|a| a.iter().filter(|x| x["id"] == json!(3)).cloned().collect()).unwrap_or_default(),
+                    "batch-last" | "batch-before-malformed" => parsed.as_array().map(|a| a.iter().filter(|x| x["id"] == json!(3)).cloned().collect()).unwrap_or_default(),
+                    "batch-after-malformed" | "batch-among-malformed" => parsed.as_array().map(|a| a.iter().filter(|x| x["id"] == json!(2)).cloned().collect()).unwrap_or_default(),
                     _ => parsed.as_array().map(|a| a.iter().filter(|x| x["id"] == json!(1)).cloned().collect()).unwrap_or_default(),
                 };
                 if must_refuse {
@@ -210,8 +216,10 @@ pub fn run(tier: &str, seed: u64) -> i32 {
                         vs.push(mk("not-refused", what.clone(), format!("{}: HTTP {} body {}", what, status, trunc(&text, 500))));
                     }
                     // permitted neighbours in the same batch are still served
-                    if form.starts_with("batch-") && form != "batch-only-this" {
-                        let others_ok = parsed.as_array().map(|a| a.iter().filter(|x| !mine.contains(x)).all(|x| x.get("result").is_some())).unwrap_or(false);
+                    if form.starts_with("batch-") && form != "batch-only-this" && form != "batch-after-malformed" {
+                        // (in the forms with malformed elements the permitted neighbour is the read with id 1)
+                        let malformed = form.ends_with("-malformed");
+                        let others_ok = parsed.as_array().map(|a| a.iter().filter(|x| !mine.contains(x) && (!malformed || x["id"] == json!(1))).all(|x| x.get("result").is_some()) && (!malformed || a.iter().any(|x| x["id"] == json!(1)))).unwrap_or(false);
                         if !others_ok {
                             vs.push(mk("permitted-batch-entries-not-served", what.clone(), format!("{}: body {}", what, trunc(&text, 500))));
                         }
@@ -274,7 +282,7 @@ pub fn run(tier: &str, seed: u64) -> i32 {
     let mut ev = Evidence::new("C12", tier, seed, "exploration");
     ev.coverage = json!({
         "evaluations": evals, "distinct_nontrivial": refused,
-        "rule": "every registered method (from the dispatch table, cross-checked with the #[method] attributes) x {call, notification, first / middle / last element of a batch among permitted calls, batch of only this method} x {no header, wrong user, wrong password, malformed, not base64, lower-case scheme, bearer, correct} on a server started with start() and authentication enabled, plus every method without credentials on a server with authentication disabled; after each refused request the state digest (public reads) must be unchanged; a permitted request that changes the digest marks its method as mutating, which must then be on the protected list. distinct_nontrivial = requests that had to be refused",
+        "rule": "every registered method (from the dispatch table, cross-checked with the #[method] attributes) x {call, notification, first / middle / last element of a batch among permitted calls, batch of only this method, after / among / before batch elements that are not requests at all} x {no header, wrong user, wrong password, malformed, not base64, lower-case scheme, bearer, correct} on a server started with start() and authentication enabled, plus every method without credentials on a server with authentication disabled; after each refused request the state digest (public reads) must be unchanged; a permitted request that changes the digest marks its method as mutating, which must then be on the protected list. distinct_nontrivial = requests that had to be refused",
         "samples": samples, "methods": table.len(), "protected": protected.len(), "must_be_refused": refused, "must_be_served": served, "methods_observed_mutating": mutating.iter().collect::<Vec<_>>(), "server_restarts": restarts,
         "exhaustive": true, "machinery_errors": errors,
     });
